@@ -41,6 +41,9 @@ package filetransfer
 //      browse response) contains the content marker of a file outside the
 //      region ("read") or the canary entry name of a directory outside the
 //      region ("listed").
+// archive_test.go adds the operation upload-archive: bounded-exhaustive hostile tar archives
+// uploaded as directories (same oracle).
+//
 // Metadata (size/mode/mtime) that stat or list report about the target of a
 // symlink is deliberately NOT judged: the statement names reads, writes,
 // creates, lists, chmods and deletes.
@@ -70,6 +73,8 @@ type c26Case struct {
 	Op   string   `json:"op"`
 	Base string   `json:"base"` // A, NFD, PFX, OUT, R
 	Tail []string `json:"tail"`
+	// Archive: the entries of the hostile tar archive of an "upload-archive" case (archive_test.go)
+	Archive []c26Entry `json:"archive,omitempty"`
 }
 
 var c26FormNames = []string{"[]", "[A]", "[A/**]", "[A/*]", "[A/sub]", "[*]"}
@@ -94,6 +99,9 @@ type c26World struct {
 	sentinel []c26Sent
 	slow     int64
 	upTar    []byte
+	curTar   []byte // tar.gz of the current "upload-archive" case
+	gz       *gzip.Writer
+	fast     int64  // archive uploads put back without a full rebuild (nothing outside the destination changed)
 }
 
 func c26StatKey(p string) string {
@@ -442,12 +450,16 @@ func (w *c26World) perform(h *StreamHandler, op, p string) (resp []byte, admitte
 			b = append([]byte("C"), b...)
 		}
 		return b, true
-	case "upload-file", "upload-dir":
+	case "upload-file", "upload-dir", "upload-archive":
 		meta := &TransferMetadata{Path: p, Mode: 0o644, Size: 17}
 		var data io.Reader = strings.NewReader("C26-UPLOADED-FILE")
 		if op == "upload-dir" {
 			meta.IsDirectory, meta.Size, meta.Mode, meta.Compress = true, -1, 0o755, true
 			data = bytes.NewReader(w.upTar)
+		}
+		if op == "upload-archive" {
+			meta.IsDirectory, meta.Size, meta.Mode, meta.Compress = true, -1, 0o755, true
+			data = bytes.NewReader(w.curTar)
 		}
 		if err := h.ValidateUploadMetadata(meta); err != nil {
 			return []byte(err.Error()), false
@@ -470,14 +482,19 @@ func (w *c26World) perform(h *StreamHandler, op, p string) (resp []byte, admitte
 	return b, r != nil && r.Error == ""
 }
 
-func (w *c26World) check(r *vmc.Result, c *c26Case) error {
-	p := w.path(c)
-	h := NewStreamHandler(StreamConfig{Enabled: true, AllowedPaths: w.allowedPaths(c.Form)})
-	resp, admitted := w.perform(h, c.Op, p)
-	r.Add("evaluations", 1)
+type c26Vio struct{ kind, detail string }
 
-	type vio struct{ kind, detail string }
-	var vios []vio
+// eval performs the case's operation on the scratch tree and returns what the oracle found:
+// leaks in the response and effects outside the allowed region. The tree is rebuilt if anything changed.
+func (w *c26World) eval(c *c26Case) (vios []c26Vio, admitted, changed bool, err error) {
+	h := NewStreamHandler(StreamConfig{Enabled: true, AllowedPaths: w.allowedPaths(c.Form)})
+	resp, admitted := w.perform(h, c.Op, w.path(c))
+	return w.judge(c, resp, admitted)
+}
+
+// judge is the oracle: leaks in the response, effects outside the allowed region.
+func (w *c26World) judge(c *c26Case, resp []byte, admitted bool) (vios []c26Vio, _ bool, changed bool, err error) {
+	type vio = c26Vio
 	// (2) leaks
 	if len(resp) > 0 {
 		s := string(resp)
@@ -502,7 +519,7 @@ func (w *c26World) check(r *vmc.Result, c *c26Case) error {
 		}
 	}
 	// (1) effects
-	changed := !w.untouched()
+	changed = !w.untouched()
 	if changed {
 		w.slow++
 		after, err := c26Snapshot(w.r)
@@ -510,7 +527,7 @@ func (w *c26World) check(r *vmc.Result, c *c26Case) error {
 			if _, lerr := os.Lstat(w.r); lerr != nil {
 				after = map[string]string{} // R itself was removed (possible under the wildcard form via R/..)
 			} else {
-				return fmt.Errorf("snapshot: %v", err)
+				return nil, admitted, changed, fmt.Errorf("snapshot: %v", err)
 			}
 		}
 		keys := map[string]bool{}
@@ -538,14 +555,29 @@ func (w *c26World) check(r *vmc.Result, c *c26Case) error {
 				vios = append(vios, vio{"outside-deleted", "deleted " + k})
 			case a[0] == b[0] && strings.Fields(a)[1] != strings.Fields(b)[1] && (a[0] == 'D' || strings.Join(strings.Fields(a)[2:], " ") == strings.Join(strings.Fields(b)[2:], " ")):
 				vios = append(vios, vio{"outside-chmod", "mode of " + k + ": " + strings.Fields(b)[1] + " => " + strings.Fields(a)[1]})
+			case a[0] == 'F' && b[0] == 'F' && c26OnlyNlinkDiffers(a, b):
+				vios = append(vios, vio{"outside-linked", "link count of " + k + ": " + strings.Fields(b)[2] + " => " + strings.Fields(a)[2]})
 			default:
 				vios = append(vios, vio{"outside-modified", "modified " + k + " (" + b + " => " + a + ")"})
 			}
 		}
 		if err := w.build(); err != nil {
-			return fmt.Errorf("rebuild: %v", err)
+			return nil, admitted, changed, fmt.Errorf("rebuild: %v", err)
 		}
 	}
+	return vios, admitted, changed, nil
+}
+
+func (w *c26World) check(r *vmc.Result, c *c26Case) error {
+	if c.Op == "upload-archive" {
+		return w.checkArchive(r, c)
+	}
+	p := w.path(c)
+	vios, admitted, changed, err := w.eval(c)
+	if err != nil {
+		return err
+	}
+	r.Add("evaluations", 1)
 	shape := w.shape(p)
 	outcome := c.Op + "|refused"
 	if admitted {
@@ -573,7 +605,10 @@ func TestVerif_C26(t *testing.T) {
 	r := vmc.New("C26", "exploration")
 	r.Rule = "every request path (base directory + bounded component sequence from an explicit alphabet) x allowed-path form x operation is run " +
 		"against the real StreamHandler on a real scratch tree containing symlinks at depth 1 and 2; a case is non-trivial when the operation " +
-		"was admitted by validation; distinct non-trivial = distinct (operation, form, path shape, filesystem changed)"
+		"was admitted by validation; distinct non-trivial = distinct (operation, form, path shape, filesystem changed). " +
+		"Family hostile directory-upload archives: every sequence of tar entries (type x name x link target from explicit alphabets, simplest first) up to the stated " +
+		"length is uploaded through ValidateUploadMetadata + WriteUploadedFile(isDirectory) into destinations in the tree under the allowed-path forms; " +
+		"non-trivial there = distinct (form, destination, entry-type sequence) of admitted uploads that extracted something"
 	r.Assume("no concurrent modification of the tree between validation and use (TOCTOU races are out of scope)")
 	r.Assume("metadata (size, mode, mtime) of a symlink's target reported by list/stat is not judged as a read of the target")
 	r.Assume("Linux filesystem semantics: file names are byte strings, NFC and NFD spellings are different names")
@@ -589,7 +624,7 @@ func TestVerif_C26(t *testing.T) {
 		return
 	}
 	defer c26ForceRemove(w.top)
-	defer func() { r.Add("full_snapshots", w.slow) }()
+	defer func() { r.Add("full_snapshots", w.slow); r.Add("archive_uploads_destination_restored", w.fast) }()
 
 	var rep c26Case
 	if r.ReplayInto(&rep) {
@@ -657,4 +692,6 @@ func TestVerif_C26(t *testing.T) {
 			}
 		}
 	}
+	// family "hostile directory-upload archives" (archive_test.go)
+	w.runArchives(r)
 }
